@@ -78,6 +78,8 @@ def main():
             if r.returncode != 0:
                 raise SystemExit("patch does not apply")
         rc, out, wall = run_check(prop, repo, a.tier)
+        if rc == 1 and "VIOLATION property=" not in out:
+            rc = 2  # exit 1 without a VIOLATION line is a harness failure, not a catch
         print(out[-3000:])
         print("RESULT %s patch=%s rc=%d wall=%.0fs" % (prop, a.patch, rc, wall))
         results.append({"prop": prop, "mutant": a.patch or "clean", "rc": rc, "wall": round(wall)})
